@@ -111,6 +111,36 @@ mod string_arithmetic {
 
     use super::Number::{self, *};
 
+    /// `checked_shl` only refuses a shift amount that is too large. A left shift that drops set bits
+    /// or changes the sign has overflowed as well: shifting the result back must give the operand.
+    trait ExactShift: Sized {
+        fn exact_shl(self, amount: u32) -> Option<Self>;
+        fn exact_shr(self, amount: u32) -> Option<Self>;
+    }
+
+    macro_rules! exact_shift {
+        ($($ty:ty),+) => {
+            $(
+                impl ExactShift for $ty {
+                    fn exact_shl(self, amount: u32) -> Option<Self> {
+                        let shifted = self.checked_shl(amount)?;
+                        if shifted.checked_shr(amount) == Some(self) {
+                            Some(shifted)
+                        } else {
+                            None
+                        }
+                    }
+
+                    fn exact_shr(self, amount: u32) -> Option<Self> {
+                        self.checked_shr(amount)
+                    }
+                }
+            )+
+        };
+    }
+
+    exact_shift!(i32, i128, u8);
+
     macro_rules! parse {
         ($val:expr, $ty:ty) => {
             <std::result::Result<_, _> as anyhow::Context<_, _>>::with_context(
@@ -310,8 +340,8 @@ mod string_arithmetic {
     number_impl!(checked_add as Add, add);
     number_impl!(checked_sub as Sub, sub);
     number_impl!(checked_mul as Mul, mul);
-    number_impl!(bitshift checked_shl as Shl, shl);
-    number_impl!(bitshift checked_shr as Shr, shr);
+    number_impl!(bitshift exact_shl as Shl, shl);
+    number_impl!(bitshift exact_shr as Shr, shr);
     number_impl!(fpNonzero checked_div as Div, div);
     number_impl!(fpNonzero checked_rem as Rem, rem);
     number_impl!(infallible bitand as BitAnd, bitand);
